@@ -135,6 +135,16 @@ Proof.
 Qed.
 Print Assumptions C12_default_name_only_name_field.
 
+(* the stream interceptor works per message: for every sequence of messages received on one
+   wrapped stream (client-streaming / bidi), each successfully received message -- the first and
+   every later one -- is treated exactly as by the unary interceptor; a failed RecvMsg leaves the
+   message alone *)
+Theorem C12_stream_session_per_message : forall d rs i ok t v,
+  nth_error rs i = Some (ok, t, v) ->
+  nth_error (stream_session d rs) i = Some (if ok then unary_msg d t v else v).
+Proof. exact stream_session_per_message. Qed.
+Print Assumptions C12_stream_session_per_message.
+
 (* every method of every trait service descriptor is forwarded by its checked-in router with the
    right shape (re-proved against the table regenerated from the working tree on every run) *)
 Theorem C12_all_routed : forallb entry_ok table = true /\ orphan_routers = [].
@@ -184,6 +194,11 @@ Example C12_nonvacuous_default_seq :
   let b := mkT "vendor.b.ListThingsRequest" [mkF 1 "page_token" FString; mkF 2 "name" FString] in
   run_seq "dev" [(0, a, [(1, ""); (2, "")]); (1, b, [(1, ""); (2, "")]); (0, b, [(1, ""); (2, "x")]); (2, b, [(1, ""); (2, "")])]%string
   = [[(1, "dev"); (2, "")]; [(1, ""); (2, "dev")]; [(1, ""); (2, "x")]; [(1, ""); (2, "")]]%string.
+Proof. vm_compute. reflexivity. Qed.
+Example C12_nonvacuous_stream_session :
+  let a := mkT "vendor.a.GetOnOffRequest" [mkF 1 "zone" FString; mkF 2 "name" FString] in
+  stream_session "srv" [(true, a, [(1, ""); (2, "")]); (true, a, [(1, "z"); (2, "")]); (false, a, [(1, ""); (2, "")]); (true, a, [(1, ""); (2, "x")])]%string
+  = [[(1, ""); (2, "srv")]; [(1, "z"); (2, "srv")]; [(1, ""); (2, "")]; [(1, ""); (2, "x")]]%string.
 Proof. vm_compute. reflexivity. Qed.
 Example C12_nonvacuous_table : (20 <? zlen table) = true /\
   existsb (fun e => existsb dm_sstream (e_methods e)) table = true /\
